@@ -7,6 +7,8 @@ import BV.C09.Lemmas2
 import BV.C09.Lemmas3
 import BV.C09.Lemmas4
 import BV.C09.Lemmas5
+import BV.C09.Lemmas6
+import BV.C09.Lemmas7
 import BV.Generated.C09
 namespace BV.C09
 open Spec
@@ -54,6 +56,14 @@ theorem bigToCompact_is_normal (a : Nat) (ha : 0 < a) (hlen : byteLen a ≤ 254)
 theorem bigToCompact_idempotent (a : Nat) (ha : 0 < a) (hlen : byteLen a ≤ 254) :
     bigToCompact (compactToBig (bigToCompact (a : Int))) = bigToCompact (a : Int) :=
   Lemmas.b2c_idempotent a ha hlen
+
+/-- The decoder is injective on normal compacts: two required-bits values are equal iff their targets are. -/
+theorem compactToBig_injective_on_normal (c1 c2 : Nat) (h1 : Lemmas.normalForm c1) (h2 : Lemmas.normalForm c2)
+    (h : compactToBig c1 = compactToBig c2) : c1 = c2 := Lemmas.l6_c2b_inj_normal c1 c2 h1 h2 h
+
+/-- The bits computed by a retarget (any positive new target below 256^254) are a normal compact. -/
+theorem retarget_bits_normal (v : Int) (hv : 0 < v) (hlen : v < 256 ^ 254) :
+    Lemmas.normalForm (bigToCompact v) := Lemmas.l6_retarget_bits_normal v hv hlen
 
 /-- normal compacts decode to positive numbers -/
 theorem normalForm_pos (c : Nat) (h : Lemmas.normalForm c) : 0 < compactToBig c := Lemmas.normal_pos c h
@@ -128,6 +138,10 @@ example : ∀ h ∈ [(⟨0, 0x1d00ffff⟩ : Hdr)], 0 < compactToBig h.bits ∧ c
   intro h hh; simp at hh; subst hh; decide
 
 /-! ### proof-of-work check -/
+
+/-- `HashToBig` of an n-byte hash is below 256^n (below 2^256 for block hashes). -/
+theorem hashToBig_lt (h : List UInt8) : hashToBig h < 256 ^ h.length := Lemmas.l6_hashToBig_lt h
+
 
 /-- `checkProofOfWork` accepts iff 0 < target ≤ powLimit and hash ≤ target. -/
 theorem pow_check_iff (bits : Nat) (hash : List UInt8) (lim : Int) :
@@ -333,6 +347,15 @@ theorem mtp_monotone (h : Hdr) (chain : List Hdr) (hne : chain ≠ [])
 
 example : (⟨5, 0⟩ : Hdr).time > calcPastMedianTime [⟨4, 0⟩, ⟨3, 0⟩] := by decide
 
+/-- For every header history obeying the time-stamp rule (`Lemmas.TimesValid`: each header is later than
+    the MTP of its ancestors) the MTP of any descendant is at least the MTP of any of its ancestors. -/
+theorem mtp_monotone_along_chain (ext base : List Hdr) (hb : base ≠ [])
+    (hv : Lemmas.TimesValid (ext ++ base)) :
+    calcPastMedianTime base ≤ calcPastMedianTime (ext ++ base) := Lemmas.l6_mtp_monotone_chain ext base hb hv
+
+example : Lemmas.TimesValid [⟨5, 0⟩, ⟨4, 0⟩, ⟨3, 0⟩] := by
+  refine ⟨fun _ => by decide, fun _ => by decide, fun h => absurd rfl h, trivial⟩
+
 /-! ### header context / sanity verdicts (`CheckBlockHeaderContext`, `CheckBlockHeaderSanity`) -/
 
 /-- A header passes the difficulty and time-stamp clauses of `CheckBlockHeaderContext` iff its bits are the
@@ -344,6 +367,12 @@ theorem header_context_ok_iff (p : Params) (prev : Hdr) (rest : List Hdr) (h : H
       (p.enforceBIP94 = true →
         assertNoTimeWarp (((prev :: rest).length : Nat) : Int) p.blocksPerRetarget h.time prev.time = true) :=
   Lemmas.l5_ctx_ok_iff p prev rest h
+
+/-- A header accepted by the context check keeps the MTP monotone. -/
+theorem accepted_header_mtp_monotone (p : Params) (prev : Hdr) (rest : List Hdr) (h : Hdr)
+    (hok : checkBlockHeaderContext p (prev :: rest) h false = .ok) :
+    calcPastMedianTime (prev :: rest) ≤ calcPastMedianTime (h :: prev :: rest) :=
+  Lemmas.l6_accepted_mtp p prev rest h hok
 
 /-- `BFFastAdd` skips all three clauses. -/
 theorem header_context_fast_add (p : Params) (prev : Hdr) (rest : List Hdr) (h : Hdr) :
@@ -366,6 +395,32 @@ theorem header_sanity_ok_iff (bits : Nat) (hash : List UInt8) (lim : Int) (np : 
     checkBlockHeaderSanity bits hash lim np sec nsec adj = .ok ↔
       checkProofOfWorkFlags bits hash lim np = .ok ∧ nsec = 0 ∧ sec ≤ adj + MAX_TIME_OFFSET :=
   Lemmas.l5_sanity_ok_iff bits hash lim np sec nsec adj
+
+/-! ### whole header histories through `ProcessBlockHeader` -/
+
+/-- Whatever sequence of headers is offered, the resulting chain is the old one extended by exactly the
+    accepted headers; every accepted header has a target in `(0, powLimit]`; the time-stamp rule is kept. -/
+theorem process_headers_extends (p : Params) (chain hs : List Hdr) :
+    ∃ ext, (processHeaders p chain hs).1 = ext ++ chain ∧ Lemmas.ValidTargets p ext ∧
+      (Lemmas.TimesValid chain → Lemmas.TimesValid (ext ++ chain)) ∧
+      ext.length = ((processHeaders p chain hs).2.filter (· = .ok)).length ∧
+      (processHeaders p chain hs).2.length = hs.length := Lemmas.l7_process_ext p hs chain
+
+/-- Cumulative work grows by at least one unit per accepted header, for every offered header sequence
+    (strictly increasing along any chain of accepted headers). -/
+theorem process_headers_work (p : Params) (chain hs : List Hdr) (hlim : p.powLimit < 2 ^ 256) :
+    workSum chain + ((processHeaders p chain hs).2.filter (· = .ok)).length ≤
+      workSum (processHeaders p chain hs).1 := Lemmas.l7_work p chain hs hlim
+
+/-- … and the median time past never goes back. -/
+theorem process_headers_mtp (p : Params) (chain hs : List Hdr) (hne : chain ≠ [])
+    (hv : Lemmas.TimesValid chain) :
+    calcPastMedianTime chain ≤ calcPastMedianTime (processHeaders p chain hs).1 ∧
+      Lemmas.TimesValid (processHeaders p chain hs).1 := Lemmas.l7_mtp p chain hs hne hv
+
+/-- a chain consisting of a genesis header alone satisfies the hypotheses -/
+example : ([⟨1296688602, 0x207fffff⟩] : List Hdr) ≠ [] ∧ Lemmas.TimesValid [⟨1296688602, 0x207fffff⟩] :=
+  ⟨by simp, fun h => absurd rfl h, trivial⟩
 
 /-! ### calcEasiestDifficulty (checkpoint-era lower bound on claimed work) -/
 
@@ -402,6 +457,15 @@ theorem subsidy_eq_spec (h i : Nat) (hi : 0 < i) :
 /-- Total issuance never exceeds 21 million coins, for every height and every interval ≤ 210000. -/
 theorem total_subsidy_le (N I : Nat) (hI : 0 < I) (hI' : I ≤ 210000) :
     totalSubsidy I N ≤ MAX_MONEY := Lemmas.total_subsidy_le N I hI hI'
+
+/-- The subsidy halves every `I` blocks, never increases with the height, and is zero exactly from the
+    34th era on. -/
+theorem subsidy_halving (h I : Nat) (hI : 0 < I) : subsidy (h + I) I = subsidy h I / 2 :=
+  Lemmas.l6_subsidy_halving h I hI
+theorem subsidy_antitone (h h' I : Nat) (hh : h ≤ h') : subsidy h' I ≤ subsidy h I :=
+  Lemmas.l6_subsidy_antitone h h' I hh
+theorem subsidy_zero_iff (h I : Nat) (hI : 0 < I) : subsidy h I = 0 ↔ 33 * I ≤ h :=
+  Lemmas.l6_subsidy_zero_iff h I hI
 
 /-- Total issuance is monotone in the height. -/
 theorem totalSubsidy_mono (I N M : Nat) (h : N ≤ M) : totalSubsidy I N ≤ totalSubsidy I M :=
